@@ -393,6 +393,61 @@ func runC10(c *Ctx) {
 			c.Check("K9-text-as-given", fmt.Sprintf("%s#%d", k, per[k]), st.ok, st.call.Pos(), "%s must hand the rule text it was given to %s unchanged (the argument is a parameter of the caller itself, not a value computed from it): entry points that normalise the text differently accept different languages", fnName(st.g), fnName(st.h))
 		}
 		c.Min("K9-text-as-given", 3)
+		// ---- K10: a text is accepted only after it has been compiled: in every function on the way from
+		// an entry point to a pipeline (the text-carrying functions found above) no return with a possibly
+		// nil error is reachable without passing the call that carries the text on (or, in a pipeline, the
+		// creation of the lexer). An entry point that answers for some texts itself -- a blank text
+		// "starts an empty pool" -- accepts a text the others reject
+		var carriers []*ssa.Function
+		for g := range textParam {
+			carriers = append(carriers, g)
+		}
+		sort.Slice(carriers, func(i, j int) bool { return fnName(carriers[i]) < fnName(carriers[j]) })
+		isPipe := map[*ssa.Function]bool{}
+		for _, f := range pipes {
+			isPipe[f] = true
+		}
+		for _, g := range carriers {
+			gx := c.Index(g)
+			carries := func(in ssa.Instruction) bool {
+				if call, ok := in.(*ssa.Call); ok && isPipe[g] && calleeIs(call, pParser, "", "NewgengineLexer") {
+					return true
+				}
+				cc := callCommon(in)
+				if cc == nil {
+					return false
+				}
+				h := cc.StaticCallee()
+				return h != nil && textParam[h] != nil && seenSite[in]
+			}
+			bad, badPos := false, g.Pos()
+			eachInstr(g, func(in ssa.Instruction) {
+				r, isR := in.(*ssa.Return)
+				if !isR || bad || len(r.Results) == 0 {
+					return
+				}
+				last := r.Results[len(r.Results)-1]
+				if !isErrorType(last.Type()) {
+					return
+				}
+				mayNil := false
+				for _, pv := range gx.ValuesAt(last, r) {
+					if pv.V == nil || isConstNil(pv.V) {
+						mayNil = true
+					} else if !isNewError(pv.V) && !gx.knownNonNil(pv.V, r.Block()) {
+						mayNil = true
+					}
+				}
+				if !mayNil {
+					return
+				}
+				if _, round := pathExistsEB(g, nil, func(i2 ssa.Instruction) bool { return i2 == in }, nil, carries); round {
+					bad, badPos = true, r.Pos()
+				}
+			})
+			c.Check("K10-accepted-only-when-compiled", fnName(g), !bad, badPos, "%s can return without an error and without having compiled the text (a way round the call that carries the text to the pipeline): it accepts texts the other entry points reject", fnName(g))
+		}
+		c.Min("K10-accepted-only-when-compiled", 5)
 	}
 	// ---- K2
 	c.ruleK2("K2-all-or-nothing")
